@@ -5,6 +5,7 @@
    result code: 0 agree & property holds; 1 model differs, property holds;
                 2 model differs and property fails; 3 agree and property fails (model mirrors a defect). *)
 From Verif Require Export Shard.Engine C01.Spec C01.Run.
+From Verif Require Export C10.Guard C10.Epoch.
 Open Scope Z_scope.
 
 Inductive xstep :=
@@ -71,11 +72,117 @@ Definition xexec (md : mode) (c : cfg) (a : acc) (x : xstep) : acc :=
       {| a_s := s; a_ok := a_ok a; a_hist := a_hist a; a_agree := a_agree a && ag; a_spec := a_spec a && sp |}
   end.
 
-Inductive case := CHist (md : mode) (xs : list xstep).
+(* ---------- delete guards (C10/Guard.v) ---------- *)
+
+(* the regular expressions of a case: regexp.Regexp.Match as observed on every string of the case *)
+Definition retab := list (N * list (str * bool)).
+
+Definition re_lookup (tab : retab) (r : N) (s : str) : bool :=
+  match find (fun e => N.eqb (fst e) r) tab with
+  | Some e => match find (fun p => str_eqb (fst p) s) (snd e) with
+              | Some p => snd p
+              | None => false
+              end
+  | None => false
+  end.
+
+Fixpoint pick {A} (l : list A) (idx : list nat) : list A :=
+  match idx with
+  | [] => []
+  | i :: r => match nth_error l i with Some x => x :: pick l r | None => pick l r end
+  end.
+
+(* guard.Matches on single points and on batches: model = implementation; executable spec:
+   whatever the delete selects (C10/Guard.v gselects, checked against the real delete by
+   [guarddel_check]) is matched by the implementation's guard *)
+Definition guard_check (tab : retab) (e : option gexpr) (min max : Z) (names : list str)
+    (pts : list (gpoint * bool)) (batches : list (list nat * bool)) (nil_guard : bool) : bool * bool :=
+  let g := new_guard (re_lookup tab) true min max names e in
+  let agree :=
+    forallb (fun po => Bool.eqb (guard_matches true g [fst po]) (snd po)) pts
+    && forallb (fun bo => Bool.eqb (guard_matches true g (pick (map fst pts) (fst bo))) (snd bo)) batches
+    && Bool.eqb (guard_matches_opt true None (map fst pts)) nil_guard in
+  let spec :=
+    forallb (fun po => implb (wf_point (fst po) && gselects (re_lookup tab) e names min max (fst po)) (snd po)) pts in
+  (agree, spec).
+
+(* a real Store.DeleteSeries: rows = (point written, lost by the delete, matched by the guard the
+   delete installs); derr = the delete returned an error (then it may have stopped early) *)
+Definition guarddel_check (tab : retab) (e : option gexpr) (min max : Z) (names : list str) (derr : bool)
+    (rows : list (gpoint * bool * bool)) : bool * bool :=
+  let g := new_guard (re_lookup tab) true min max names e in
+  let agree :=
+    forallb (fun r => let '(pt, lost, matched) := r in
+                      wf_point pt
+                      && Bool.eqb (guard_matches true g [pt]) matched
+                      && (if derr then implb lost (gselects (re_lookup tab) e names min max pt)
+                          else Bool.eqb (gselects (re_lookup tab) e names min max pt) lost)) rows in
+  let spec := forallb (fun r => let '(_, lost, matched) := r in implb lost matched) rows in
+  (agree, spec).
+
+(* ---------- epoch tracker (C10/Epoch.v) ---------- *)
+
+Definition mt_of (tab : list (list bool)) (j i : nat) : bool := nth i (nth j tab []) false.
+
+(* a schedule driven against the real tracker: after every action the observed state (tracker
+   fields, guards done, thread positions as the driver's calls left them) equals the model's,
+   an action ran iff the model's step is enabled; executable spec on the OBSERVED states:
+   mutual exclusion, exact counts, wait exactness, progress *)
+Definition epoch_check (tab : list (list bool)) (nw nd : nat) (steps : list (act * bool * gstate)) : bool * bool :=
+  let mt := mt_of tab in
+  let '(_, ag, sp) :=
+    fold_left (fun (acc : gstate * bool * bool) (st : act * bool * gstate) =>
+      let '(s, ag, sp) := acc in
+      let '(a, ran, obs) := st in
+      match ep_step mt s a with
+      | Some s' => (s', ag && ran && gstate_eqb s' obs, sp && state_ok mt obs)
+      | None => (s, ag && negb ran && gstate_eqb s obs, sp && state_ok mt obs)
+      end) steps (ep_init nw nd, true, true) in
+  (ag, sp).
+
+(* raw calls in any order: (call, returned guards as generations, returned generation,
+   observed epoch, largest, writes, deletes as (generation, pending), generations whose guard is done) *)
+Definition rawobs := (list N * N * (N * N * Z * list (N * Z) * list N))%type.
+
+Definition nset_eqb (a b : list N) : bool :=
+  forallb (fun x => existsb (N.eqb x) b) a && forallb (fun x => existsb (N.eqb x) a) b.
+
+Definition raw_check (ops : list (rawop * rawobs)) : bool :=
+  snd (fold_left (fun (acc : rawstate * bool) (oo : rawop * rawobs) =>
+    let '(s, ag) := acc in
+    let '(o, (rg, rgen, (ep, lar, wr, dels, dn))) := oo in
+    let s' := raw_step s o in
+    let t' := r_tr s' in
+    let ret_ok := match o with
+                  | RStartWrite => list_eqb N.eqb (map d_gen (t_deletes (r_tr s))) rg && N.eqb (t_epoch t') rgen
+                  | RWaitDelete => N.eqb (t_epoch t') rgen
+                  | _ => true
+                  end in
+    (s', ag && ret_ok && N.eqb (t_epoch t') ep && N.eqb (t_largest t') lar && Z.eqb (t_writes t') wr
+         && list_eqb (fun a b => N.eqb (fst a) (fst b) && Z.eqb (snd a) (snd b))
+                     (map (fun d => (d_gen d, d_pending d)) (t_deletes t')) dels
+         && nset_eqb (r_done s') dn))
+    ops ({| r_tr := tracker0; r_done := []; r_waiters := [] |}, true)).
+
+Inductive case :=
+| CHist (md : mode) (xs : list xstep)
+| CGuard (tab : retab) (e : option gexpr) (min max : Z) (names : list str)
+         (pts : list (gpoint * bool)) (batches : list (list nat * bool)) (nil_guard : bool)
+| CGuardDel (tab : retab) (e : option gexpr) (min max : Z) (names : list str) (derr : bool)
+            (rows : list (gpoint * bool * bool))
+| CEpoch (tab : list (list bool)) (nw nd : nat) (steps : list (act * bool * gstate))
+| CEpochRaw (ops : list (rawop * rawobs)).
 
 Definition check_case (c : case) : N :=
   match c with
   | CHist md xs =>
       let a := fold_left (xexec md repaired) xs {| a_s := init; a_ok := true; a_hist := []; a_agree := true; a_spec := true |} in
       code (a_ok a && a_agree a) (a_spec a)
+  | CGuard tab e min max names pts batches ng =>
+      let '(ag, sp) := guard_check tab e min max names pts batches ng in code ag sp
+  | CGuardDel tab e min max names derr rows =>
+      let '(ag, sp) := guarddel_check tab e min max names derr rows in code ag sp
+  | CEpoch tab nw nd steps =>
+      let '(ag, sp) := epoch_check tab nw nd steps in code ag sp
+  | CEpochRaw ops => code (raw_check ops) true
   end.
